@@ -9,3 +9,15 @@ class IndexedJob(Task):
 
     def execute(self):
         pass
+
+
+class FlakyJob(Task):
+    """A task that really runs: it fails unless the file named by $C16_FLAG exists."""
+
+    x: Param[int]
+
+    def execute(self):
+        import os
+
+        if not os.path.exists(os.environ["C16_FLAG"]):
+            raise RuntimeError("flag is missing")
